@@ -42,7 +42,7 @@ def bounds(tier):
 
 
 def shards(tier):
-    return mg_space.shards(tier)
+    return list(mg_space.shards(tier)) + [["history-leg"]]
 
 
 def _a(s):
@@ -133,7 +133,7 @@ def check_name(acc, case, name, ctx, ntok, mangle, ref):
         bad("differs-from-reference", "hy.mangle(%s) = %s, documented steps give %s" % (_a(name), _a(r), _a(expected)))
 
 
-def run_shard(shard, tier):
+def _run_shard_main(shard, tier):
     import hy
     from mc.ref import mg_mangle_ref as ref
     mangle = hy.mangle
@@ -155,7 +155,7 @@ def _safe(f, x):
         return "<%s>" % type(e).__name__
 
 
-def recheck(case, tier):
+def _recheck_main(case, tier):
     import hy
     from mc.ref import mg_mangle_ref as ref
     acc = Acc()
@@ -168,3 +168,64 @@ def snippet(d):
     name, _ = mg_space.name_of(d["case"])
     return ("import hy, unicodedata\ns = %s\nr = hy.mangle(s)\nprint(ascii(r), r.isidentifier(), unicodedata.normalize('NFKC', r) == r, "
             "hy.mangle(r) == r)\n# %s: %s\n" % (ascii(name), d.get("kind"), d.get("detail")))
+
+
+# ---------------------------------------------------------------- history leg: mangle must be a function of its argument alone
+# every ordered pair of calls (s1, then s2) over all token strings of <= 2 tokens from a small alphabet chosen so that names
+# differ only by leading underscores / hyphens / a leading digit: the second result must equal the reference (which is stateless)
+HIST_ALPHA = ["_", "1", "a", "-", "2", "?"]
+
+
+def _hist_names():
+    import itertools
+    out = []
+    for n in (1, 2, 3):
+        out += ["".join(t) for t in itertools.product(HIST_ALPHA, repeat=n)]
+    return out
+
+
+def _hist_case(acc, s1, s2):
+    import hy
+    from mc.ref import mg_mangle_ref as ref
+    acc.states += 1
+    acc.transitions += 2
+    acc.traces += 1
+    acc.evaluations += 2
+    acc.nontrivial += 1
+    try:
+        hy.mangle(s1)
+    except Exception:
+        pass
+    if ref.classify(s2) == "unspecified":
+        return
+    try:
+        got = hy.mangle(s2)
+    except Exception as e:
+        got = "<raised %s>" % type(e).__name__
+    want = ref.mangle(s2)
+    acc.outcome("history:" + ("same" if got == want else "DIFFERS"))
+    if got != want:
+        acc.disagree("mangle-depends-on-earlier-call", {"history": [s1, s2]},
+                     f"after hy.mangle({s1!r}), hy.mangle({s2!r}) returned {got!r}; a fresh interpreter (and the documented algorithm) gives {want!r}",
+                     sig="history:" + ("underscore" if s2.lstrip("_") == s1.lstrip("_") else "other"))
+
+
+def run_shard(shard, tier):
+    if shard == ["history-leg"]:
+        acc = Acc()
+        names = _hist_names()
+        for s1 in names:
+            for s2 in names:
+                if s1 != s2:
+                    _hist_case(acc, s1, s2)
+        acc.sample({"history": ["1a", "_1a"]})
+        return acc.result()
+    return _run_shard_main(shard, tier)
+
+
+def recheck(case, tier):
+    if "history" in case:
+        acc = Acc()
+        _hist_case(acc, *case["history"])
+        return acc.disagreements
+    return _recheck_main(case, tier)
